@@ -24,6 +24,7 @@ import (
 	"go/ast"
 	"go/parser"
 	"go/token"
+	"os"
 	"path/filepath"
 	"strings"
 )
@@ -402,6 +403,8 @@ func (p *impPkg) translateFunc(name string) string {
 
 func runImp() {
 	for _, tg := range impTargets {
+		out := filepath.Join(outDir, tg.out)
+		dieHook = func() { os.Remove(out) } // a failed translation must not leave the previous run's file behind
 		p := loadImp(tg)
 		var b strings.Builder
 		fmt.Fprintf(&b, "/- GENERATED by tools/goslp (imp.go) from /repo/%s/%s on every run. DO NOT EDIT.\n", tg.dir, tg.file)
@@ -424,5 +427,6 @@ func runImp() {
 		}
 		fmt.Fprintf(&b, "end GV.Gen.Imp.%s\n", tg.ns)
 		writeFile(tg.out, b.String())
+		dieHook = nil
 	}
 }
